@@ -18,7 +18,7 @@ use layout21raw::utils::Ptr;
 use layout21raw::{LayerPurpose, Library, Units};
 use serde_json::{json, Value};
 
-const MODE: CmpMode = CmpMode { lib_name: true, inst_list_with_names: true, annotations: true, abstracts: true };
+const MODE: CmpMode = CmpMode { lib_name: true, inst_list_with_names: true, annotations: true, abstracts: true, layout_name: true };
 
 pub struct Case {
     pub spec: Spec,
@@ -110,7 +110,12 @@ fn gen(four: bool, c: &mut Chooser) -> Case {
             (false, true) => "views:abstract",
             _ => "views:none",
         });
-        let mut cell = SCell { name: CELL_NAMES[i].into(), layout: None, abs: None };
+        let mut cell = SCell { name: CELL_NAMES[i].into(), layout: None, abs: None, view_names: None };
+        // the views carry names of their own, different from the cell's
+        if (has_layout || has_abs) && c.cost(2, "view-names") == 1 {
+            tags.push("views:own-names");
+            cell.view_names = Some((format!("{}_lay", CELL_NAMES[i]), format!("{}_abstract", CELL_NAMES[i])));
+        }
         if has_layout {
             let mut lay = SLayout::default();
             for (a, b) in edges.iter().filter(|e| e.0 == i) {
@@ -141,10 +146,20 @@ fn gen(four: bool, c: &mut Chooser) -> Case {
             cell.layout = Some(lay);
         }
         if has_abs {
-            let pv = c.cost(3, "ports");
-            tags.push(["ports:1-on-1-layer", "ports:0", "ports:2-second-on-2-layers"][pv]);
-            let bv = c.cost(3, "blockages");
-            tags.push(["blockages:1-layer", "blockages:0", "blockages:2-layers"][bv]);
+            // options 3..=11: one port / the blockages on two layers, holding shape kind a (rectangle, polygon,
+            // path) on the first layer and kind b on the second - every pair of kinds
+            let pv = c.cost(12, "ports");
+            tags.push(["ports:1-on-1-layer", "ports:0", "ports:2-second-on-2-layers", "ports:kind-pair"][pv.min(3)]);
+            let bv = c.cost(12, "blockages");
+            tags.push(["blockages:1-layer", "blockages:0", "blockages:2-layers", "blockages:kind-pair"][bv.min(3)]);
+            let kind = |k: usize, at: i64| -> SGeom {
+                match k {
+                    0 => SGeom::Rect((at, 10), (at + 20, 25)),
+                    1 => SGeom::Poly(l_shape((at, 40))),
+                    _ => SGeom::Path(vec![(at, 90), (at + 60, 90), (at + 60, 120)], 6),
+                }
+            };
+            let pair = |v: usize| -> Vec<(usize, Vec<SGeom>)> { vec![(0, vec![kind((v - 3) / 3, 10)]), (1, vec![kind((v - 3) % 3, 300)])] };
             let ov = c.cost(2, "outline");
             let outline = if ov == 0 { vec![(0, 0), (200, 0), (200, 100), (0, 100)] } else { l_shape((0, 0)).iter().map(|p| (4 * p.0, 4 * p.1)).collect() };
             let port1 = SPort { net: "A".into(), shapes: vec![(0, vec![SGeom::Rect((10, 10), (30, 20)), SGeom::Poly(l_shape((40, 40)))])] };
@@ -152,14 +167,16 @@ fn gen(four: bool, c: &mut Chooser) -> Case {
             let ports = match pv {
                 0 => vec![port1],
                 1 => vec![],
-                _ => vec![port1, port2],
+                2 => vec![port1, port2],
+                v => vec![SPort { net: "kp".into(), shapes: pair(v) }],
             };
             let b1 = (1usize, vec![SGeom::Rect((60, 60), (90, 80))]);
             let b2 = (0usize, vec![SGeom::Poly(vec![(100, 0), (140, 0), (100, 40)]), SGeom::Path(vec![(0, 5), (50, 5)], 2)]);
             let blockages = match bv {
                 0 => vec![b1],
                 1 => vec![],
-                _ => vec![b1, b2],
+                2 => vec![b1, b2],
+                v => pair(v),
             };
             cell.abs = Some(SAbs { outline, ports, blockages });
         }
@@ -219,7 +236,7 @@ pub fn build_proto(spec: &Spec) -> proto::Library {
     for c in order {
         let mut pc = proto::Cell { name: c.name.clone(), ..Default::default() };
         if let Some(l) = &c.layout {
-            let mut pl = proto::Layout { name: c.name.clone(), ..Default::default() };
+            let mut pl = proto::Layout { name: c.layout_name(), ..Default::default() };
             for s in &l.shapes {
                 let key = (rawspec::layer_num(s.layer) as i64, rawspec::purpose_num(s.layer, s.purpose) as i64);
                 let pos = match pl.shapes.iter().position(|g| g.layer.as_ref().map(|l| (l.number, l.purpose)) == Some(key)) {
@@ -246,7 +263,7 @@ pub fn build_proto(spec: &Spec) -> proto::Library {
             pc.layout = Some(pl);
         }
         if let Some(a) = &c.abs {
-            let mut pa = proto::Abstract { name: c.name.clone(), outline: Some(proto::Polygon { net: "".into(), vertices: a.outline.iter().map(|q| ppt(*q)).collect() }), ..Default::default() };
+            let mut pa = proto::Abstract { name: c.abs_name(), outline: Some(proto::Polygon { net: "".into(), vertices: a.outline.iter().map(|q| ppt(*q)).collect() }), ..Default::default() };
             for p in &a.ports {
                 let mut pp = proto::AbstractPort { net: p.net.clone(), shapes: vec![] };
                 for (layer, shapes) in &p.shapes {
@@ -474,7 +491,7 @@ impl CaseDriver for C14 {
     fn describe(&self, tier: Tier) -> Describe {
         Describe {
             rule: format!(
-                "{} cells forming EVERY DAG (every subset of the edges i -> j, i < j, each edge an instance) listed in EVERY order; the last cell with layout / layout+abstract / abstract-only views or no view at all (a placeholder cell) (all free); costed (deviation bound {}): units Nano/Micro/Angstrom, abstract view on the other cells, each instance's orientation (8) and offset (incl. 2e9), a second placement with angle Some(0), the layout's shape set (default: 7 shapes of all three kinds with and without nets interleaved over 2 layers x 2 purposes; none; one rectangle; all on one layer/purpose with a reversed-corner rectangle; clockwise polygon + negative rectangle; rectangles given by every pair of opposite corners, a degenerate rectangle, an explicitly closed polygon and a path returning to its start), annotations 1/0/2, abstract ports 1/0/2 (second port on two layers), blockages on 1/0/2 layers, outline rectangle / L. Each case is checked raw->proto->raw (fresh and original Layers) and proto->raw->proto (message built independently by the harness). Non-trivial = has an instance or an abstract.",
+                "{} cells forming EVERY DAG (every subset of the edges i -> j, i < j, each edge an instance) listed in EVERY order; the last cell with layout / layout+abstract / abstract-only views or no view at all (a placeholder cell) (all free); costed (deviation bound {}): units Nano/Micro/Angstrom, abstract view on the other cells, each instance's orientation (8) and offset (incl. 2e9), a second placement with angle Some(0), the layout's shape set (default: 7 shapes of all three kinds with and without nets interleaved over 2 layers x 2 purposes; none; one rectangle; all on one layer/purpose with a reversed-corner rectangle; clockwise polygon + negative rectangle; rectangles given by every pair of opposite corners, a degenerate rectangle, an explicitly closed polygon and a path returning to its start), annotations 1/0/2, abstract ports 1/0/2 (second port on two layers) or one port over two layers holding each of the 9 pairs of shape kinds (rectangle, polygon, path), blockages on 1/0/2 layers or the same 9 kind pairs, outline rectangle / L, layout and abstract views named differently from their cell. Each case is checked raw->proto->raw (fresh and original Layers) and proto->raw->proto (message built independently by the harness). Non-trivial = has an instance or an abstract.",
                 if self.four { "4".to_string() } else { "1..3".to_string() },
                 self.bound(tier)
             ),
@@ -526,7 +543,7 @@ impl CaseDriver for C14 {
             stats,
             &[
                 "cells:1", "cells:2", "cells:3", "views:layout", "views:layout+abstract", "views:abstract", "views:none", "dag:shared-dependency", "dag:chain", "order:not-dependencies-first-or-last", "shapes:interleaved-all-kinds", "shapes:none", "shapes:one-layer-purpose",
-                "shapes:cw-polygon+negative-rect", "shapes:rects-by-every-corner-pair", "annotations:0", "annotations:2", "ports:0", "ports:2-second-on-2-layers", "blockages:0", "blockages:2-layers", "inst:angle-Some(0)+second-placement",
+                "shapes:cw-polygon+negative-rect", "shapes:rects-by-every-corner-pair", "annotations:0", "annotations:2", "ports:0", "ports:2-second-on-2-layers", "ports:kind-pair", "blockages:0", "blockages:2-layers", "blockages:kind-pair", "views:own-names", "inst:angle-Some(0)+second-placement",
             ],
         )?;
         require_outcomes(stats, &["ok"])
